@@ -450,6 +450,11 @@ func (rm *RegistrationManager) NewRegistrationC2SWrapper(c2sw *pb.C2SWrapper, in
 				if len(rr.Ipv6Addr) != net.IPv6len {
 					return nil, fmt.Errorf("invalid ipv6 phantom override: %d bytes", len(rr.Ipv6Addr))
 				}
+				if net.IP(rr.Ipv6Addr).To4() != nil {
+					// an IPv4-mapped value would turn the IPv6 registration into a second
+					// registration for an IPv4 phantom
+					return nil, fmt.Errorf("invalid ipv6 phantom override: IPv4-mapped address")
+				}
                                 ipOverride = net.IP(rr.Ipv6Addr)
                         }
 
